@@ -296,6 +296,21 @@ def _match_known(mod, known, sc_name, case):
     return None
 
 
+def _process_state():
+    """Process-wide settings that a library call has no business changing for its caller."""
+    import numpy as np
+
+    env = {k: v for k, v in os.environ.items() if not k.startswith(("NSSVERIF_", "NUSPACESIM_VERIF"))}
+    return {
+        "numpy error state (np.seterr)": dict(np.geterr()),
+        "numpy print options": {k: (v if not callable(v) else "callable") for k, v in np.get_printoptions().items()},
+        "current working directory": os.getcwd(),
+        "environment variables": env,
+        "recursion limit": sys.getrecursionlimit(),
+        "sys.path length": len(sys.path),
+    }
+
+
 def run_subcheck(mod, sc: SubCheck, tier: str, seedval: int, n_examples: int, known, part=(0, 1)):
     """Run one sub-check. Returns (evidence dict, violation or None)."""
     import hypothesis
@@ -317,7 +332,13 @@ def run_subcheck(mod, sc: SubCheck, tier: str, seedval: int, n_examples: int, kn
                 pass
         try:
             try:
+                before = _process_state()
                 labels = set(sc.body(case) or ())
+                after = _process_state()
+                if after != before:
+                    # the bodies restore whatever they change themselves; what is left was changed by the code under test
+                    changed = {k: (before.get(k), after.get(k)) for k in set(before) | set(after) if before.get(k) != after.get(k)}
+                    raise Violation(f"process-wide state is changed after the calls of this case (it leaks into everything that runs later in the process): {str(changed)[:600]}")
             except (Violation, HarnessError, KeyboardInterrupt, SystemExit, MemoryError):
                 raise
             except Exception as e:  # noqa: BLE001
